@@ -4,6 +4,8 @@ import Qentem.Generated.StrToNum
 import Qentem.Proofs.StrToNumInt
 import Qentem.Proofs.StrToNumSign
 import Qentem.Proofs.StrToNumMalformed
+import Qentem.Proofs.StrToNumPaths
+import Qentem.Proofs.StrToNumSafe
 /-! C09 — text to number: integers exact, reals within one ulp, out-of-range rejected. -/
 namespace Qentem.Props.C09
 open Qentem.StrToNum Qentem.Round Qentem.Generated.StrToNum
@@ -170,5 +172,145 @@ theorem malformed_lone_dot (c : List Nat) (o e : Nat) (sign : List Nat)
 
 example : strToNum [48,49] 0 2 = some ⟨.notANumber, 0, 1⟩ := by decide
 example : strToNum [45,46] 0 2 = some ⟨.notANumber, 0, 2⟩ := by decide
+
+
+/-! ### `digits . digits`: consumed exactly (`consumed_exact`), second dot and empty exponent rejected
+
+Positions instead of lists: the mantissa's integer digits occupy `[o', P)` (`o'` = offset after the
+optional sign), the dot sits at `P`, the fraction digits occupy `[P+1, Q)`; `digitsOn c e i j` says
+every position of `[i, j)` holds a digit. What sits at `Q` decides the outcome (`Stop`):
+* `.good` — `end_offset` or a unit that cannot continue the numeral: the result is `Real` (or
+  `NotANumber` when out of range) and **its offset is `Q`**;
+* `.dot` — a second dot: `NotANumber`;
+* `.emptyExp` — `e`/`E` followed by no exponent digit (`1.5e`, `1.5e+`, `1.5e+-2`): `NotANumber`.
+The mantissa may be arbitrarily long: the dot can be inside or beyond the 19-unit window. -/
+
+/-- the sign prefix only selects `is_negative` and shifts the start -/
+theorem strToNum_after_sign (c : List Nat) (o e : Nat) (sign : List Nat) (first : Nat)
+    (hs : sign = [] ∨ sign = [43] ∨ sign = [45]) (hu : unitsAt c e o (sign ++ [first]))
+    (hf : first ≠ 45 ∧ first ≠ 43) :
+    strToNum c o e = afterSign c e (decide (sign = [45])) (o + sign.length) := by
+  rcases hs with rfl | rfl | rfl
+  · have ho := rd_lt hu.1
+    unfold strToNum
+    simp [ho, hu.1, hf.1, hf.2]
+  · have ho := rd_lt hu.1
+    unfold strToNum
+    simp [ho, hu.1]
+  · have ho := rd_lt hu.1
+    unfold strToNum
+    simp [ho, hu.1]
+
+/-- `[+-]? d₁ digits . digits` with `d₁ ≠ 0` -/
+theorem digits_dot_digits (c : List Nat) (o e : Nat) (sign : List Nat) (d1 P Q : Nat) (st : Stop) (he : e < 2 ^ 32)
+    (hs : sign = [] ∨ sign = [43] ∨ sign = [45]) (hu : unitsAt c e o (sign ++ [d1]))
+    (h1 : isNonZeroDigit d1 = true) (hd1 : digitsOn c e (o + sign.length + 1) P) (hoP : o + sign.length + 1 ≤ P)
+    (hP : rd c e P = some 46) (hd : digitsOn c e (P + 1) Q) (hPQ : P + 1 ≤ Q) (hQe : Q ≤ e) (hst : stopAt c e Q st) :
+    Outcome st Q (strToNum c o e) := by
+  have hdig := isNonZeroDigit_isDigit h1
+  have hf : d1 ≠ 45 ∧ d1 ≠ 43 := by simp [isDigit] at hdig; omega
+  rw [strToNum_after_sign c o e sign d1 hs hu hf]
+  have h0 : rd c e (o + sign.length) = some d1 := ((unitsAt_append c e sign [d1] o).1 hu).2.1
+  exact afterSign_real_A c e _ (o + sign.length) d1 P Q st he h0 h1 hd1 hoP hP hd hPQ hQe hst
+
+/-- `[+-]? 0 . digits` -/
+theorem zero_dot_digits (c : List Nat) (o e : Nat) (sign : List Nat) (Q : Nat) (st : Stop) (he : e < 2 ^ 32)
+    (hs : sign = [] ∨ sign = [43] ∨ sign = [45]) (hu : unitsAt c e o (sign ++ [48, 46]))
+    (hd : digitsOn c e (o + sign.length + 2) Q) (hPQ : o + sign.length + 2 ≤ Q) (hQe : Q ≤ e) (hst : stopAt c e Q st) :
+    Outcome st Q (strToNum c o e) := by
+  have hu' := (unitsAt_append c e sign [48, 46] o).1 hu
+  have hu1 : unitsAt c e o (sign ++ [48]) := (unitsAt_append c e sign [48] o).2 ⟨hu'.1, hu'.2.1, trivial⟩
+  rw [strToNum_after_sign c o e sign 48 hs hu1 (by decide)]
+  exact afterSign_real_B c e _ (o + sign.length) Q st he hu'.2.1 hu'.2.2.1 hd hPQ hQe hst
+
+/-- `consumed_exact` for the `digits.digits` shape: the new offset is exactly the end of the numeral -/
+theorem consumed_exact_real (c : List Nat) (o e : Nat) (sign : List Nat) (d1 P Q : Nat) (he : e < 2 ^ 32)
+    (hs : sign = [] ∨ sign = [43] ∨ sign = [45]) (hu : unitsAt c e o (sign ++ [d1]))
+    (h1 : isNonZeroDigit d1 = true) (hd1 : digitsOn c e (o + sign.length + 1) P) (hoP : o + sign.length + 1 ≤ P)
+    (hP : rd c e P = some 46) (hd : digitsOn c e (P + 1) Q) (hPQ : P + 1 < Q) (hQe : Q ≤ e)
+    (hend : endsAt c e Q contReal) :
+    ∃ r, strToNum c o e = some r ∧ r.offset = Q ∧ (r.kind = .real ∨ r.kind = .notANumber) :=
+  digits_dot_digits c o e sign d1 P Q .good he hs hu h1 hd1 hoP hP hd (Nat.le_of_lt hPQ) hQe hend
+
+theorem consumed_exact_zero_dot (c : List Nat) (o e : Nat) (sign : List Nat) (Q : Nat) (he : e < 2 ^ 32)
+    (hs : sign = [] ∨ sign = [43] ∨ sign = [45]) (hu : unitsAt c e o (sign ++ [48, 46]))
+    (hd : digitsOn c e (o + sign.length + 2) Q) (hPQ : o + sign.length + 2 < Q) (hQe : Q ≤ e)
+    (hend : endsAt c e Q contReal) :
+    ∃ r, strToNum c o e = some r ∧ r.offset = Q ∧ (r.kind = .real ∨ r.kind = .notANumber) :=
+  zero_dot_digits c o e sign Q .good he hs hu hd (Nat.le_of_lt hPQ) hQe hend
+
+/-- a repeated dot: `d₁… . digits* .` (also `1..2`) and `0 . digits* .` -/
+theorem malformed_repeated_dot (c : List Nat) (o e : Nat) (sign : List Nat) (Q : Nat) (he : e < 2 ^ 32)
+    (hs : sign = [] ∨ sign = [43] ∨ sign = [45]) (hQ : rd c e Q = some 46) :
+    (∀ d1 P, unitsAt c e o (sign ++ [d1]) → isNonZeroDigit d1 = true → digitsOn c e (o + sign.length + 1) P →
+        o + sign.length + 1 ≤ P → rd c e P = some 46 → digitsOn c e (P + 1) Q → P + 1 ≤ Q →
+        ∃ b p, strToNum c o e = some ⟨.notANumber, b, p⟩) ∧
+    (unitsAt c e o (sign ++ [48, 46]) → digitsOn c e (o + sign.length + 2) Q → o + sign.length + 2 ≤ Q →
+        ∃ b p, strToNum c o e = some ⟨.notANumber, b, p⟩) := by
+  have hQe : Q ≤ e := Nat.le_of_lt (rd_lt hQ)
+  exact ⟨fun d1 P hu h1 hd1 hoP hP hd hPQ => digits_dot_digits c o e sign d1 P Q .dot he hs hu h1 hd1 hoP hP hd hPQ hQe hQ,
+    fun hu hd hPQ => zero_dot_digits c o e sign Q .dot he hs hu hd hPQ hQe hQ⟩
+
+/-- an empty exponent after an integer mantissa of any length: `d₁ digits e` then nothing, a
+non-digit, or a sign followed by no digit (`1e`, `1e+`, `1e+-2`, `123456789012345678901234E-x`) -/
+theorem malformed_empty_exponent_int (c : List Nat) (o e : Nat) (sign : List Nat) (d1 Q m : Nat) (he : e < 2 ^ 32)
+    (hs : sign = [] ∨ sign = [43] ∨ sign = [45]) (hu : unitsAt c e o (sign ++ [d1])) (h1 : isNonZeroDigit d1 = true)
+    (hd1 : digitsOn c e (o + sign.length + 1) Q) (hoQ : o + sign.length + 1 ≤ Q)
+    (hm : rd c e Q = some m) (hmE : m = 101 ∨ m = 69) (hemp : emptyExpAt c e (Q + 1)) :
+    ∃ b p, strToNum c o e = some ⟨.notANumber, b, p⟩ := by
+  have hdig := isNonZeroDigit_isDigit h1
+  have hf : d1 ≠ 45 ∧ d1 ≠ 43 := by simp [isDigit] at hdig; omega
+  rw [strToNum_after_sign c o e sign d1 hs hu hf]
+  have h0 : rd c e (o + sign.length) = some d1 := ((unitsAt_append c e sign [d1] o).1 hu).2.1
+  exact afterSign_int_emptyExp c e _ (o + sign.length) d1 Q m he h0 h1 hd1 hoQ hm hmE hemp
+
+/-- an empty exponent after `digits.digits` / `0.digits` -/
+theorem malformed_empty_exponent_real (c : List Nat) (o e : Nat) (sign : List Nat) (Q m : Nat) (he : e < 2 ^ 32)
+    (hs : sign = [] ∨ sign = [43] ∨ sign = [45]) (hm : rd c e Q = some m) (hmE : m = 101 ∨ m = 69)
+    (hemp : emptyExpAt c e (Q + 1)) :
+    (∀ d1 P, unitsAt c e o (sign ++ [d1]) → isNonZeroDigit d1 = true → digitsOn c e (o + sign.length + 1) P →
+        o + sign.length + 1 ≤ P → rd c e P = some 46 → digitsOn c e (P + 1) Q → P + 1 ≤ Q →
+        ∃ b p, strToNum c o e = some ⟨.notANumber, b, p⟩) ∧
+    (unitsAt c e o (sign ++ [48, 46]) → digitsOn c e (o + sign.length + 2) Q → o + sign.length + 2 ≤ Q →
+        ∃ b p, strToNum c o e = some ⟨.notANumber, b, p⟩) := by
+  have hQe : Q ≤ e := Nat.le_of_lt (rd_lt hm)
+  have hst : stopAt c e Q .emptyExp := ⟨m, hm, hmE, hemp⟩
+  exact ⟨fun d1 P hu h1 hd1 hoP hP hd hPQ => digits_dot_digits c o e sign d1 P Q .emptyExp he hs hu h1 hd1 hoP hP hd hPQ hQe hst,
+    fun hu hd hPQ => zero_dot_digits c o e sign Q .emptyExp he hs hu hd hPQ hQe hst⟩
+
+/-! non-vacuity: a 25-digit integer part with the dot beyond the window, `-0.00125`, `1.5,` inside a
+buffer, and the rejected shapes -/
+example : strToNum [49,50,51,52,53,54,55,56,57,48,49,50,51,52,53,54,55,56,57,48,49,50,51,52,53,46,53] 0 27 =
+    some ⟨.real, 0x44F056E0F36A6444, 27⟩ := by decide
+example : strToNum [45,48,46,48,48,49,50,53] 0 8 = some ⟨.real, 0xBF547AE147AE147B, 8⟩ := by decide
+example : strToNum [91,49,46,53,44] 1 5 = some ⟨.real, 0x3FF8000000000000, 4⟩ := by decide
+example : (strToNum [49,46,50,46,51] 0 5).map (·.kind) = some .notANumber := by decide
+example : (strToNum [49,46,46,50] 0 4).map (·.kind) = some .notANumber := by decide
+example : (strToNum [49,101] 0 2).map (·.kind) = some .notANumber := by decide
+example : (strToNum [49,101,43] 0 3).map (·.kind) = some .notANumber := by decide
+example : (strToNum [49,101,43,45,50] 0 5).map (·.kind) = some .notANumber := by decide
+example : (strToNum [48,46,53,69] 0 4).map (·.kind) = some .notANumber := by decide
+
+
+/-! ### Memory safety and offset bounds, for every input (used by the JSON parser's C05)
+
+`strToNum` is written with checked reads (`rd c e i` is `none` unless `i < end_offset`); these two
+theorems say that no read ever fails when `end_offset ≤ length` and that every accepted result has
+consumed at least one unit and stopped inside the buffer. `e < 2^32` is the `SizeT` range. -/
+
+theorem strToNum_no_fault (c : List Nat) (o e : Nat) (hc : e ≤ c.length) (he : e < 2 ^ 32) :
+    ∃ r, strToNum c o e = some r := by
+  obtain ⟨x, h, _⟩ := strToNum_ok c e hc he o
+  exact ⟨x, h⟩
+
+theorem strToNum_offset_bounds (c : List Nat) (o e : Nat) (r : Res) (hc : e ≤ c.length) (he : e < 2 ^ 32)
+    (h : strToNum c o e = some r) (hk : r.kind ≠ .notANumber) : o < r.offset ∧ r.offset ≤ e := by
+  obtain ⟨x, hx, hb⟩ := strToNum_ok c e hc he o
+  rw [h] at hx; cases hx
+  have := hb hk
+  omega
+
+/-- the followers a JSON value can have (white space `, ] }`) all end an integer numeral -/
+example : [32, 9, 10, 13, 44, 93, 125].all (fun x => !contInt x && !contReal x && !contZero x) = true := by decide
 
 end Qentem.Props.C09
